@@ -92,8 +92,9 @@ def _atoms(v):
         if not (isinstance(exp, dict) and "out" in exp):
             return at | {"unexplained"}
         en = exp["out"].get("names") or {}
-        if set(names_out) - set(en):
-            at.add("entry:extra")
+        old_versioned = {n for n, t, shape in rec.get("pairs") or [] if shape == "versioned"}
+        for x in set(names_out) - set(en):
+            at.add("entry:extra:input-name-of-versioned-class" if x in old_versioned else "entry:extra")
         ein = {e[0]: e for e in gin.get("entries") or []}
         eout = {e[0]: e for e in gout.get("entries") or []}
         for n, t, shape in rec.get("pairs") or []:
@@ -115,8 +116,9 @@ def _atoms(v):
     # recorded run judged by the trace specification: exp = Expected(r)
     if not isinstance(exp, dict) or "pairs" not in exp:
         return at | {"unexplained"}
-    if exp.get("extra"):
-        at.add("entry:extra")
+    old_versioned = {p.get("n") for p in exp.get("pairs") or [] if p.get("shape") == "versioned"}
+    for x in exp.get("extra") or []:
+        at.add("entry:extra:input-name-of-versioned-class" if x in old_versioned else "entry:extra")
     for p in exp.get("pairs") or []:
         if p.get("clash"):
             continue
@@ -223,7 +225,7 @@ P = {
     "mc": [{"module": "MC_JarRemap", "cfg": "MC_JarRemap.cfg"}],
     "trace": {"module": "Trace_JarRemap", "cfg": "Trace_JarRemap.cfg", "timeout": 3000},
     "trace_s2i": 1500,
-    "i2s_n": {"quick": 110, "thorough": 1200},
+    "i2s_n": {"quick": 300, "thorough": 3000},
     "classify_vec": _cls,
     "classify_i2s": _cls_i2s,
     "required_classes": _required(),
@@ -234,5 +236,5 @@ P = {
     "assumptions": ["TLC/SANY/CommunityModules", "cfkit assembler, parser, refs and residual", "zip crate",
                     "regrouping / joins / chunk hashing in harness/src/drivers/c07.rs",
                     "inheritance recorded from cfkit's facts (super class, then interfaces) equals what the provider is meant to deliver",
-                    "bounded universe: 7 jar shapes, 9 class maps, 5 member maps, 62 probes, 3 kinds of extra entries"],
+                    "bounded universe: 7 jar shapes, 9 class maps, 5 member maps, 63 probes, 3 kinds of extra entries"],
 }
